@@ -220,6 +220,26 @@ func (g *gen) genTarget(p *genPkg, key string, isImports bool, depth int, leaves
 		return "null"
 	case k < 45:
 		return pick(t, "odd-target", []string{"1", "true", "false"})
+	case depth > 0 && k < 51:
+		// targets whose resolution is *undefined* (neither a path nor null): the enclosing condition object
+		// or array must go on to its next entry. Objects with inactive conditions only, empty objects,
+		// and arrays made of such objects.
+		inactive := func() string {
+			n := intRange(t, "ninactive", 0, 2)
+			var kvs []kv
+			for _, c := range shuffled(t, "inactive-cond", []string{"browser", "custom", "production", "types", "deno", "worker"}, n) {
+				kvs = append(kvs, kv{c, g.genTarget(p, key, isImports, 0, leaves)})
+			}
+			return jobj(kvs)
+		}
+		if chance(t, "undefined-array", 60) {
+			var vs []string
+			for i, n := 0, intRange(t, "nundef", 1, 3); i < n; i++ {
+				vs = append(vs, inactive())
+			}
+			return jarr(vs)
+		}
+		return inactive()
 	}
 	// string target
 	s := ""
